@@ -16,6 +16,7 @@ CLAIMED = {
  "C08": ("Machine-checked Lean 4 theorems on the shared-state CAS model: in every history every handle keeps the root's leniency and points to an existing view (one sofa per view, unique names); add/remove/sofa setters through a handle of one view change nothing in any other view (frame theorems); sofa fields read back as written and the text setter recomputes the offset mapping; add installs the sofa link and covered text is the slice of that view's text; the document annotation is reused or created exactly once. Tied to /repo by per-run correspondence + shadow-state oracle over interleavings with many live handles.", "6 C08"),
  "C09": ("Invariant proof in Lean 4: every state reachable from an empty CAS (and every step from any state with bounded unique ids, e.g. the one a loader leaves) keeps all xmi:ids of sofas and feature structures and all sofaNums pairwise distinct and below the generators, generated ids are fresh, kept ids persist, id-assigning traversals (serialisers) preserve this. Document level (loaders reseed above all ids incl. sofas, writers emit distinct ids, forced duplicates raise) is observed per run on the implementation with independent XML/JSON parsers.", "6 C09"),
  "C11": ("Invariant proof in Lean 4: FeatInv (inherited = supertype's effective features by name and definition, one definition per name) holds for the regenerated built-in table (kernel-decided), is preserved by create_type and create_feature, hence for every API history; consequences: effective names = own + parent's, visibility on all current and future descendants, constructor fields = effective names, identical redefinition is a no-op, conflicting range raises in either order. Tied to /repo by per-run correspondence + independent declaration oracle.", "6 C11"),
+ "C13": ("Machine-checked Lean 4 theorems about the model of the (repaired) merge algorithm: the readiness loop terminates on closed acyclic declaration lists; every successful merge yields one tree (Consistent, incl. the re-parenting step that moves a type below its more specific supertype) registering every declared type; first declarations create the type with declared supertype and features, equal supertypes leave the hierarchy alone, incomparable and contradictory supertypes raise ValueError. Order/grouping independence is NOT proved: it is checked by enumerating all permutations (and groupings) over small pools on implementation and model against an independent reading of the merge rules (partial; one recorded finding M6). Purity is observed on the implementation.", "6 C13"),
  "C15": ("Machine-checked Lean 4 bound for the worklist of Cas._find_all_fs on every heap: iterations <= |seeds| + sum of out-degrees, pops = |seeds| + pushes, termination under finite list spines, each structure collected once, heap only gains ids; recursion of the hierarchy queries is bounded by |types|+1 (C10 theorems). Tied to /repo by exact step-count correspondence (sys.monitoring) on cycle/diamond/repeated/null/long-list shapes and deadlines on serialisers; wall-clock and recursion depth are runtime behaviour outside the model (partial).", "6 C15"),
  "C19": ("Machine-checked Lean 4 theorems: per structure typecheck returns exactly one error (carrying the owner's id) per non-null element of an FSArray-valued feature whose type is not subsumed by the declared element type (absent = TOP), is total on well-formed arrays (unset, empty, no element list, null elements), empty iff no offender, offender iff not a descendant (via C10); per CAS the concatenation over everything the traversal collects. Tied to /repo by per-run correspondence + independent reachability/subtree oracle.", "6 C19"),
  "C18": ("Machine-checked Lean 4 theorems about get/set over split paths on arbitrary heaps (cycles included): get = step-by-step fold, None propagation, set assigns exactly one slot (frame), set-then-get under the stated stability condition, error conditions. Tied to /repo by exhaustive small-graph and random correspondence + shadow-heap oracle.", "6 C18"),
